@@ -27,7 +27,7 @@ def run(tier):
     # spec -> impl: every configuration (graph x target x silent set) of the implementation-shaped model, enumerated by TLC,
     # built with real managers; the lookups join the trace (P-level verdicts) and are compared with the model's answer (drift)
     cfgs = []
-    for cfgname in (("Replay_Lookup_k2.cfg", "Replay_Lookup_k3.cfg", "Replay_Lookup_big.cfg") if big else ("Replay_Lookup_k2.cfg", "Replay_Lookup_k3.cfg")):
+    for cfgname in ("Replay_Lookup_k2.cfg", "Replay_Lookup_k3.cfg"):
         b, rr = vlib.tlc_behaviours("Replay_Lookup", cfgname, workers=8 if big else 4, timeout=3000)
         rep.add_tlc(rr, "Replay_Lookup " + cfgname)
         cfgs += b
@@ -38,6 +38,17 @@ def run(tier):
     vlib.run_harness(["c01", "replay", "in=" + cfg_p, "out=" + rtrace, "stride=%d" % stride], timeout=3000)
     with open(trace, "a") as f, open(rtrace) as g:
         f.write(g.read())
+    if big:
+        # five nodes: 49 152 configurations enumerated, every 8th..10th replayed (a real cluster per configuration)
+        b, rr = vlib.tlc_behaviours("Replay_Lookup", "Replay_Lookup_big.cfg", workers=8, timeout=3000)
+        rep.add_tlc(rr, "Replay_Lookup Replay_Lookup_big.cfg")
+        cfgs += b
+        cfg5 = os.path.join(wd, "replay_cfgs5.ndjson")
+        vlib.write_ndjson(cfg5, b)
+        rtrace5 = os.path.join(wd, "replay_trace5.ndjson")
+        vlib.run_harness(["c01", "replay", "in=" + cfg5, "out=" + rtrace5, "stride=%d" % (8 + vlib.seed() % 3)], timeout=3000)
+        with open(trace, "a") as f, open(rtrace5) as g:
+            f.write(g.read())
     res, tr = vlib.validate_trace("Trace_Lookup", "Trace_Lookup.cfg", trace, os.path.join(wd, "out.json"), timeout=3000)
     if res["consumed"] != res["total"]:
         raise vlib.ToolError("trace not fully consumed")
